@@ -439,8 +439,6 @@ from pyvc.registry import event, EMPTY, SeqEv  # noqa: E402
 from .classes import ISDBC, owns_what_it_resolves, FLAGIN, CALL_FLAG, SETATTR_FLAG  # noqa: E402
 ISPROPERTY = lambda v: ISINST(v, clsref("property"))
 LIST_ATTR_FIELDS = [k + a for a in LISTS.values() for k in ("attr:", "has:")]
-REG.external("_metaclass._decorate_namespace_property", "assumed contract (not yet verified against its body): like _decorate_namespace_function, "
-             "per accessor; modifies only the namespace entry and the contract-list attributes of the accessors' own checkers")
 REG.external("_checkers.add_invariant_checks", "assumed contract at call sites; its body is checked separately (see C03)")
 
 # members of the namespace from position i on, each dispatched once to the function that merges its contracts
@@ -536,6 +534,9 @@ class DbcDecorateNamespace(FnSpec):
             ex.oblige(st, "call[%s]#%d.same_bases_and_namespace" % (kind, k), z3.And(kwargs["bases"].t == self.bases, kwargs["namespace"].t == self.ns), kind="callsite")
             if kind == "MemberFn":
                 return REG.calls["icontract._metaclass._decorate_namespace_function"](ex, st, node, args, kwargs)
+            h2 = REG.calls.get("icontract._metaclass._decorate_namespace_property")
+            if h2 is not None:  # under contract (specs/propmerge.py): the caller sees its contract like any other callee's
+                return h2(ex, st, node, args, kwargs)
             return assumed_member_effect(ex, st, self.ns, key)
         return h
 
